@@ -81,6 +81,8 @@ static cat_return_state ev_read(const struct cat_command *c, uint8_t *d, size_t 
 {
         (void)d; (void)n; (void)m;
         delivered[pidx(c)]++;
+        if (delivered[pidx(c)] % 7 == 3)
+                return CAT_RETURN_STATE_HOLD_EXIT_OK;      /* releases a held command from inside cat_service (lock already held) */
         return (delivered[pidx(c)] & 1) ? CAT_RETURN_STATE_DATA_OK : CAT_RETURN_STATE_OK;
 }
 
@@ -88,6 +90,8 @@ static cat_return_state ev_test(const struct cat_command *c, uint8_t *d, size_t 
 {
         (void)d; (void)n; (void)m;
         delivered[pidx(c)]++;
+        if (delivered[pidx(c)] % 5 == 2)
+                return CAT_RETURN_STATE_HOLD_EXIT_ERROR;
         return (delivered[pidx(c)] & 2) ? CAT_RETURN_STATE_DATA_OK : CAT_RETURN_STATE_OK;
 }
 
